@@ -84,7 +84,7 @@ func c14Build(slots []c14Slot, part map[string]bool, issig bool) (*c14Session, e
 		var kssP *big.Int
 		if part[sl.key] {
 			kssP = new(big.Int).Exp(k.Pk.R[0], s.kssSec, k.Pk.N)
-			s.keys[k.Pk.Issuer] = k.Pk
+			s.keys[vfKeyID(k.Pk)] = k.Pk
 			s.labels = append(s.labels, "kss")
 		} else {
 			s.labels = append(s.labels, "")
@@ -337,7 +337,7 @@ func TestVerifC14Deviations(t *testing.T) {
 			add("commitment-nil", fmt.Sprintf("[%d].comm=nil", i), func(in *[]KeyshareUserChallengeInput[string], _ *[]byte) { (*in)[i].Commitment = nil })
 			add("key-id", fmt.Sprintf("[%d].key toggled (present<->absent)", i), func(in *[]KeyshareUserChallengeInput[string], _ *[]byte) {
 				if (*in)[i].KeyID == nil {
-					id := vfK("k1024a").Pk.Issuer
+					id := vfKeyID(vfK("k1024a").Pk)
 					(*in)[i].KeyID = &id
 				} else {
 					(*in)[i].KeyID = nil
